@@ -4,6 +4,7 @@ it was generated from), run through the real analysis, checked by vlib/progen/or
 The oracle is written from the property texts and TableGen's rules (audited against llvm-tblgen
 where it is installed), not from the implementation."""
 import json
+import re
 import os
 import random
 import sys
@@ -274,6 +275,15 @@ SHADOW = [
     ('class A { int v = 1; } class B<int n> { int w = n; } class C : A, B<v>; multiclass M { def _x : A, B<v>; }', [("v", 1, "v", 0), ("v", 2, "v", 0)],
      "field-of-earlier-parent-in-later-parent-argument:class-and-multiclass"),
     ('defvar v = "s"; class A { int v = 1; } class B<int n> { int w = n; } def d : A, B<v>;', [("v", 2, "v", 1)], "earlier-parent-field-over-global-defvar"),
+    # a variable of an OUTER bang operator, used inside an inner one, against a template argument / inherited field / own field
+    # of the same name (every scope between the use and the record counts, not only the innermost); llvm-tblgen rejects an
+    # iteration variable named like a FIELD of the record, so only template arguments and accumulators collide here
+    ('class A<list<int> xs, int x = 0> { list<int> r = !foreach(x, xs, !foldl(0, xs, acc, y, !add(acc, x, y))); }', [("x", 2, "x", 1)],
+     "outer-bang-variable-over-template-argument"),
+    ('class Q<int k> { list<int> l = [1]; int t = !foldl(0, l, k, e, !add(k, !foldl(0, l, s, u, !add(s, u, k, e)))); }', [("k", 3, "k", 1), ("e", 1, "e", 0)],
+     "accumulator-over-template-argument-two-levels"),
+    ('defvar z = 5; class R { int z = 1; list<list<int>> l = !foreach(a, [1], !foreach(b, [2], !add(a, b, z))); }', [("z", 2, "z", 1)],
+     "field-through-two-bang-scopes-over-global"),
 ]
 
 
@@ -292,7 +302,8 @@ def shadow_probes(ck, prop):
         case = {"files": {"/main.td": text}, "root": "/main.td", "detail": {"probe": tag}}
         if prop == "C13":
             ds = [d for _, v in ans[0] for d in v]
-            if ds:
+            from . import validcorpus
+            if ds and validcorpus.tblgen_accepts(text, "shadow_" + re.sub(r"[^A-Za-z0-9]+", "_", tag)) is not False:
                 ck.fail(["C13", "false-diagnostic", "shadowing:" + tag.split(":")[0]], "a well-formed program (accepted by llvm-tblgen) produces diagnostics: %s" % ds[:2],
                         case, json.dumps(ds)[:300], "no diagnostics")
             continue
@@ -316,3 +327,53 @@ def typed_parent_fault_probe(ck):
     if not any(a <= site and site + 1 <= b for _, a, b, _ in ds):
         ck.fail(["C13", "missed-fault", "type-incompatible-argument:earlier-parent-field"], "a string field of an earlier parent passed to an int parameter of a later parent is not reported",
                 {"files": {"/main.td": text}, "root": "/main.td"}, json.dumps(ds)[:300], "a diagnostic covering offset %d" % site)
+
+
+# ---------------------------------------------------------------------------------------------------
+# attribution probes: a file that is reached a second time (diamond, or re-included by the root), followed - in the re-including
+# file or in one of its ancestors - by one seeded fault or by further includes; diagnostics belong to the file of the fault
+def attribution_probes(ck):
+    common = "class Base { int base = 0; }\n"
+    a = 'include "common.td"\nclass A : Base { int a = 1; }\n'
+    b = 'include "common.td"\nclass B : Base { int b = 2; }\n'
+    d = "class D : Base { int d = 3; }\n"
+    cases = []
+
+    def add(tag, files, fault):
+        cases.append((tag, {"/" + k: v for k, v in files.items()}, fault))
+    add("diamond-wellformed", {"main.td": 'include "a.td"\ninclude "b.td"\ninclude "d.td"\ndef m : A, B, D;\n', "a.td": a, "b.td": b, "common.td": common, "d.td": d}, None)
+    add("diamond-then-undefined-class-in-root", {"main.td": 'include "a.td"\ninclude "b.td"\ndef m : A, B, Missing;\n', "a.td": a, "b.td": b, "common.td": common},
+        ("/main.td", "Missing"))
+    add("diamond-then-bad-initialiser-in-second-includer", {"main.td": 'include "a.td"\ninclude "b.td"\ndef m : A, B;\n', "a.td": a,
+                                                             "b.td": 'include "common.td"\nclass B : Base { int b = "text"; }\n', "common.td": common}, ("/b.td", '"text"'))
+    add("reinclude-then-missing-include-in-root", {"main.td": 'include "a.td"\ninclude "common.td"\ninclude "nowhere.td"\ndef m : A;\n', "a.td": a, "common.td": common},
+        ("/main.td", '"nowhere.td"'))
+    add("reinclude-then-undefined-identifier-in-root", {"main.td": 'include "a.td"\ninclude "common.td"\ndef m : A { int z = nosuchvalue; }\n', "a.td": a, "common.td": common},
+        ("/main.td", "nosuchvalue"))
+    add("three-levels-fault-in-middle", {"main.td": 'include "mid.td"\ndef m : M;\n', "mid.td": 'include "a.td"\ninclude "b.td"\nclass M : A, B, Gone;\n', "a.td": a, "b.td": b,
+                                          "common.td": common}, ("/mid.td", "Gone"))
+    add("three-levels-wellformed-more-includes", {"main.td": 'include "mid.td"\ninclude "d.td"\ndef m : M, D;\n', "mid.td": 'include "a.td"\ninclude "b.td"\ninclude "d.td"\nclass M : A, B;\n',
+                                                  "a.td": a, "b.td": b, "common.td": common, "d.td": d}, None)
+    add("self-include-then-fault", {"main.td": 'include "main.td"\ninclude "common.td"\nclass S : Base, Absent;\n', "common.td": common}, ("/main.td", "Absent"))
+    add("diamond-surplus-argument-in-root", {"main.td": 'include "a.td"\ninclude "b.td"\ndef m : A<1>;\n', "a.td": a, "b.td": b, "common.td": common}, ("/main.td", "A<1>"))
+    res = core.impl(["ws " + json.dumps({"files": f, "root": "/main.td", "queries": [["diagnostics"]]}) for _, f, _ in cases], tag="attr")
+    for (tag, files, fault), r in zip(cases, res):
+        try:
+            per = {f: ds for f, ds in json.loads(r)[0] if ds}
+        except Exception:
+            continue
+        case = {"files": files, "root": "/main.td", "detail": {"probe": "attribution:" + tag}}
+        if fault is None:
+            if per:
+                ck.fail(["C13", "false-diagnostic", "attribution:" + tag], "a well-formed multi-file program produces diagnostics: %s" % json.dumps(per)[:200], case, json.dumps(per)[:300], "none")
+            continue
+        ff, site = fault
+        lo = files[ff].encode().index(site.encode())
+        hi = lo + len(site.encode())
+        hit = any(d[1] <= lo and hi <= d[2] or (lo <= d[1] and d[2] <= hi) for d in per.get(ff, []))
+        others = sorted(f for f in per if f != ff)
+        if others:
+            ck.fail(["C13", "untouched-file", "attribution:" + tag], "a fault in %s is reported in %s" % (ff, others), case, json.dumps(per)[:300], "diagnostics in %s only" % ff)
+        elif not hit:
+            ck.fail(["C13", "missed-fault", "attribution:" + tag], "the fault %s in %s is not reported at its site" % (site, ff), case, json.dumps(per)[:300], "a diagnostic covering %d..%d of %s" % (lo, hi, ff))
+    ck.count("attribution_probes", len(cases), {t for t, _, _ in cases}, sample={"files": cases[1][1]})
